@@ -26,7 +26,7 @@ pub struct C06;
 
 struct Out {
     /// (label, snapshot of the complex with canonical cycles) over Z with h = 1, 2, 3 (t = 0)
-    complexes: Vec<(String, i64, Snapshot<refmodel::Z>)>,
+    complexes: Vec<(String, i64, Snapshot<refmodel::Z>, Vec<bool>)>,
     /// (label, total rank, is free)
     lee: Vec<(String, usize, bool)>,
     /// ss values: (label, value)
@@ -54,7 +54,9 @@ fn run_sut(case: &Value) -> Out {
     for reduced in [false, true] {
         if !knot && reduced { continue; }
         let c = KhComplex::<i64>::new(&l, &h, &0, reduced);
-        out.complexes.push((format!("h={h},reduced={reduced}"), h, snapshot(&c)));
+        // the library's own view: d(0, z) must be reported as the zero chain
+        let dz_zero = c.canon_cycles().iter().map(|z| { use yui_kh::kh::KhChainExt; use num_traits::Zero; c.d(z.h_deg(), z).is_zero() }).collect();
+        out.complexes.push((format!("h={h},reduced={reduced}"), h, snapshot(&c), dz_zero));
     }
     // (h,t) = (1,0) over Z and (0,1) over Q: free of total rank 2^components
     let bn = KhHomology::<i64>::new(&l, &1, &0, false);
@@ -66,7 +68,12 @@ fn run_sut(case: &Value) -> Out {
         out.ss.push(("D,unreduced".into(), ss_for(ring, &l, false)));
         out.ss.push(("D,reduced".into(), ss_for(ring, &l, true)));
         if let Some(pd2) = case.get("pd_switched").filter(|v| v.is_array()) {
-            let l2 = link_of(&pd_from_json(pd2));
+            // the crossing change either as a rewritten PD code or through the library's own
+            // `Crossing::mirror` on the link object
+            let l2 = match case["switch_api"].as_u64() {
+                Some(k) => yui_link::Link::new(l.data().iter().enumerate().map(|(i, x)| if i as u64 == k { x.mirror() } else { x.clone() }).collect()),
+                None => link_of(&pd_from_json(pd2)),
+            };
             out.ss.push(("D',reduced".into(), ss_for(ring, &l2, true)));
         }
     }
@@ -74,9 +81,12 @@ fn run_sut(case: &Value) -> Out {
 }
 
 fn oracle(case: &Value, out: &Out, components: usize) -> Option<Violation> {
-    for (label, h, s) in &out.complexes {
+    for (label, h, s, dz_zero) in &out.complexes {
         if let Some(v) = check_complex(s, (false, false), *h, 0) {
             return Some(Violation::new(&v.class, format!("[{label}] {}", v.message)));
+        }
+        if let Some(i) = dz_zero.iter().position(|z| !z) {
+            return Some(Violation::new("canon-cycle-d-not-reported-zero", format!("[{label}] KhComplex::d(0, z).is_zero() is false for canonical cycle {i}")));
         }
         let k0 = s.degrees.iter().position(|&d| d == 0);
         let want = if label.ends_with("true") { 1 } else { 2usize.pow(components as u32) };
@@ -182,6 +192,7 @@ impl Check for C06 {
             let sw = Diagram::from_pd(&eff).switch_crossing(k).pd();
             case["pd_switched"] = pd_to_json(&sw);
             case["switched_sign"] = json!(o.signs[k]);
+            if rng.chance(1, 2) { case["switch_api"] = json!(k); }
         }
         case
     }
@@ -208,6 +219,7 @@ impl Check for C06 {
                 let comps = Diagram::from_pd(&pd).orientation().unwrap().components;
                 if case["mirror_api"].as_bool().unwrap_or(false) { rep.counters.insert("mirror_via_api".into(), 1); }
                 if out.ss.len() == 3 { rep.counters.insert("crossing_change_checked".into(), 1); }
+                if case["switch_api"].is_u64() { rep.counters.insert("crossing_change_via_api".into(), 1); }
                 rep.outcome_class = out.ss.first().map(|(_, v)| format!("ss={v}")).unwrap_or("link".into());
                 rep.detail = out.ss.first().map(|(_, v)| format!("{}:{v}", case["ss_ring"].as_str().unwrap())).unwrap_or_default();
                 rep.outcome_digest = out.ss.iter().fold(7u64, |d, (_, v)| rt::mix(d, *v as u64));
